@@ -4,6 +4,7 @@ import (
 	"bytes"
 	"encoding/xml"
 	"fmt"
+	"github.com/henrylee2cn/erpc/v6/socket"
 	"math"
 	"net/url"
 	"reflect"
@@ -311,6 +312,37 @@ func (d *dataRun) codecCase(c DataCase, out map[string]interface{}) {
 		return
 	}
 	shape := c.S("shape")
+	if c.S("kind") == "bytesreuse" {
+		// byte-slice bodies bypass the codec whose id the message carries: message.UnmarshalBody copies them into the
+		// *[]byte receiver.  A caller that keeps ONE receiver across calls: after a body of another length the receiver
+		// must hold exactly the new body
+		v := map[string][]byte{"short": []byte("tiny"), "long": bytes.Repeat([]byte("0123456789"), 30)}[shape]
+		var prev []byte
+		switch c.S("prev") {
+		case "longer":
+			prev = bytes.Repeat([]byte("L"), len(v)+200)
+		case "shorter":
+			prev = []byte("p")
+		case "equal":
+			prev = bytes.Repeat([]byte("E"), len(v))
+		case "spare":
+			prev = make([]byte, 0, len(v)+64)
+		}
+		dest := append(make([]byte, 0, cap(prev)), prev...)
+		m := socket.NewMessage()
+		m.SetBodyCodec(codecIDs[c.S("codec")])
+		m.SetBody(&dest)
+		if err := m.UnmarshalBody(append([]byte(nil), v...)); err != nil {
+			out["err"] = err.Error()
+			return
+		}
+		out["equal"] = bytes.Equal(dest, v)
+		if !bytes.Equal(dest, v) {
+			out["got"] = clip(dest)
+			out["want"] = clip(v)
+		}
+		return
+	}
 	if c.S("kind") == "window" {
 		// the destination is arena[4:8]: length 4, capacity 12; the arena is filled with a marker byte
 		arena := bytes.Repeat([]byte{0xAA}, 16)
